@@ -253,3 +253,13 @@ func RandRead(b []byte) {
 		ctr++
 	}
 }
+
+// SetClock sets the virtual clock (used when a new execution continues on a directory
+// written by a previous one, e.g. after an injected crash).
+//
+//go:norace
+func SetClock(nanos int64) {
+	if nanos > clk.now {
+		clk.now = nanos
+	}
+}
